@@ -46,12 +46,16 @@ type Ctx struct {
 	Vars  []*Term            // declared variables in creation order
 	Funs  map[string]string  // uninterpreted function decls: name -> "(Real) Real"
 	byNm  map[string]*Term
+	Trig  []TrigPair // (angle, sin, cos) triples introduced by the executor
 	// hooks installed by the executor
 	OnDomain    func(kind string, cond *Term) // a partial operation's side condition (divisor != 0, sqrt arg >= 0)
 	Concretize  func(t *Term) int64           // fork over the feasible values of an Int term
 	Fresh       func(prefix string, s Sort) *Term
 	Define      func(guard, fact *Term)       // global fact: guard => fact (definitions of fresh variables)
 }
+
+// TrigPair links an angle term with the variables standing for its sine and cosine.
+type TrigPair struct{ Angle, Sin, Cos *Term }
 
 func NewCtx() *Ctx {
 	return &Ctx{table: map[string]*Term{}, Funs: map[string]string{}, byNm: map[string]*Term{}}
